@@ -232,6 +232,7 @@ pub fn with_schema_pair<T: FullS, U: FullS>(g: &mut Gen, out: &mut Sink) {
     }))
     .unwrap_or(false);
     let r = catch_unwind(AssertUnwindSafe(|| borsh::try_from_slice_with_schema::<U>(&enc)));
+    out.case(&format!("wsverdict {} {} {}", T::ty(), U::ty(), if matches!(r, Ok(Ok(_))) { "accepted" } else { "rejected" }), "ok");
     match r {
         Ok(Ok(u)) => {
             out.case(&case, &format!("ok {}", canon_of(&u)));
